@@ -90,9 +90,13 @@ impl EventStore {
 
     /// Get an event by its offset in the map
     pub(crate) unsafe fn get_event_by_offset(&self, offset: usize) -> Result<&Event, Error> {
+        #[cfg(feature = "verif")]
+        crate::verif::point("y:es:read");
         if offset >= self.read_event_map_end() {
             return Err(InnerError::EndOfInput.into());
         }
+        #[cfg(feature = "verif")]
+        crate::verif::point("y:es:read:checked");
         let event = Event::delineate(&self.event_map[offset..])?;
         Ok(event)
     }
